@@ -41,15 +41,17 @@ th!(c10_q_send_cancel, 12, {
     assert!(t.verif_send_state() == VSendState::Cancelled && t.verif_condition() == Condition::CancelReceived, "cancel takes effect at once");
     assert!(verif::send_state(&t) == TransactionState::Active);
     assert!(verif::send_has_pdu_to_send(&t), "EOF(cancel) is due");
-    match send_send(&mut t, &ch) {
+    let out6 = send_send(&mut t, &ch);
+    match &out6 {
         Some((dest, PDU { payload: PDUPayload::Directive(Operations::EoF(e)), header })) => {
-            assert!(dest == VariableID::from(DST_ID) && header.direction == Direction::ToReceiver);
+            assert!(*dest == VariableID::from(DST_ID) && header.direction == Direction::ToReceiver);
             assert!(e.condition == Condition::CancelReceived, "EOF carries the cancel condition");
             assert!(e.fault_location == Some(VariableID::from(SRC_ID)), "fault location = the cancelling entity");
             assert!(e.file_size == 3 && e.checksum == ref_checksum(SRC, 3));
         }
         _ => assert!(false, "EOF(cancel) expected"),
     }
+    forget(out6);
     assert!(!verif::send_has_pdu_to_send(&t), "sent once");
     let a = t.verif_timer().ack.verif_parts();
     assert!(!a.paused && a.start_time == Duration::from_secs(NOW), "ACK timer guards the handshake");
@@ -131,13 +133,15 @@ th!(c10_q_recv_cancel, 10, {
     assert!((codes >> 4) & 0xF == DeliveryCode::Incomplete as u64, "not reported as delivered");
     assert!(t.verif_timer().nak.verif_parts().paused, "no more NAKs");
     assert!(verif::recv_has_pdu_to_send(&t), "Finished(cancel) is due");
-    match recv_send(&mut t, &ch) {
+    let out7 = recv_send(&mut t, &ch);
+    match &out7 {
         Some((dest, PDU { payload: PDUPayload::Directive(Operations::Finished(f)), .. })) => {
-            assert!(dest == VariableID::from(SRC_ID));
+            assert!(*dest == VariableID::from(SRC_ID));
             assert!(f.condition == Condition::CancelReceived && f.delivery_code == DeliveryCode::Incomplete, "Finished carries the cancel condition");
         }
         _ => assert!(false, "Finished(cancel) expected"),
     }
+    forget(out7);
     let a = t.verif_timer().ack.verif_parts();
     assert!(!a.paused && a.start_time == Duration::from_secs(NOW), "ACK timer guards the handshake");
     dst_untouched();
